@@ -1,13 +1,19 @@
 import LexVerif.Props.RoundNE
 import LexVerif.Proof.WriteRadixInt
 import LexVerif.Proof.WriteBinaryShape
+import LexVerif.Proof.WriteRadixFrac
+import LexVerif.Proof.WriteRadixIntText
 import Mathlib.Tactic.SplitIfs
 /-!
-# C07 — generic-radix float output (property theorems about the judge)
+# C07 — generic-radix float output
 
-The check measures, for each written output, the distance between the float and the nearest float of the
-output's exact value. Monotonicity of `roundNE` is what makes that measurement meaningful: a larger exact
-value never has a smaller nearest float.
+1. the judge: the check measures, for each written output, the distance between the float and the nearest float of the
+   output's exact value; monotonicity of `roundNE` makes that measurement meaningful.
+2. `RadixInteger`: the abstract integer path (`Model/WriteRadixInt.lean`, assumption `IeeeExact`).
+3. `RadixFull`: theorems about the WHOLE writer `Model/WriteRadix.lean` (hardware arithmetic modelled exactly as
+   "exact result, then round to nearest even"; tied to radix.rs byte-for-byte by the `wf` correspondence):
+   well-formedness (3a), termination / fuel adequacy (3b), integer exactness with the `IeeeExact` assumption discharged
+   (3c), and the exact part of the error analysis (3d). The ulp bound itself stays `C07_radix_error_bound : Prop`.
 -/
 namespace LexVerif.Props.C07
 open LexVerif.Spec LexVerif.Proof.RoundNE LexVerif.Props.RoundNE
@@ -102,5 +108,293 @@ example : render ⟨12 + 3 * 2 ^ 104⟩ { radix := true, powerOfTwo := true } {}
     (layoutInt ⟨12 + 3 * 2 ^ 104⟩ {} exactOps 5000) = [50, 48, 50, 49, 50, 48, 49, 50, 46, 48] := by decide +kernel
 
 end RadixInteger
+
+/-! ## the whole writer (`Model/WriteRadix.lean`)
+
+`cf` selects the round-up back-trace: `true` = /repo at or after dbb7ae7 (carry repaired; what the driver runs,
+`WriteRadix.repoHasCarryFix`), `false` = the original snapshot (finding C07-generic-radix-roundup-invalid-digit). -/
+section RadixFull
+open LexVerif.Model LexVerif.Model.WriteRadix LexVerif.Model.WriteRadixInt
+open LexVerif.Proof.WriteRadixF LexVerif.Proof.WriteRadixWF LexVerif.Proof.WriteRadixTerm
+open LexVerif.Proof.WriteRadixTermInt LexVerif.Proof.WriteRadixFrac LexVerif.Proof.WriteRadixInteger
+open LexVerif.Model.WriteInt (Res)
+
+/-- binary32 or binary64 (radix.rs runs in the float's own type) -/
+def StdFmt (f : Fmt) : Prop := f = f64 ∨ f = f32
+
+theorem StdFmt.fok {f : Fmt} (h : StdFmt f) : FOK f := by rcases h with rfl | rfl; exacts [fok_f64, fok_f32]
+theorem StdFmt.radix_lt {f : Fmt} (h : StdFmt f) {r : Nat} (hr : r ≤ 36) : r < 2 * 2 ^ (f.p - 1) := by
+  rcases h with rfl | rfl
+  · exact Nat.lt_of_le_of_lt hr (by decide)
+  · exact Nat.lt_of_le_of_lt hr (by decide)
+theorem StdFmt.predOne {f : Fmt} (h : StdFmt f) {r : Nat} (hr : r ∈ genericRadices) : PredOne f r := by
+  rcases h with rfl | rfl; exacts [predOne_table_f64 r hr, predOne_table_f32 r hr]
+theorem StdFmt.fuel {f : Fmt} (h : StdFmt f) : Proof.RoundNE.L f ≤ halfSize ∧ f.bias + 2 ≤ halfSize ∧ f.p ≤ halfSize := by
+  rcases h with rfl | rfl <;> decide
+theorem genericRadices_bounds : ∀ r ∈ genericRadices, 3 ≤ r ∧ r ≤ 36 := by decide
+
+/-! ### 3a. well-formedness -/
+
+/-- **C07 well-formedness, code as it is in /repo now.** For every finite binary32/binary64 pattern, every generic
+radix, every format with that mantissa radix (any exponent radix ≥ 2), every feature set and every option set with
+default `max_significant_digits`: whatever `radix::write_float` writes is a non-empty run of digits below the radix,
+optionally the decimal point and digits below the radix, optionally the exponent character, an optional sign and
+digits of the exponent radix. No exclusion hypothesis. -/
+theorem radix_wellformed {f : Fmt} (hf : StdFmt f) {r : Nat} (hr : r ∈ genericRadices) (feats : Features)
+    (fmt : Format) (hfr : fmt.mantissaRadix = r) (her : 2 ≤ fmt.exponentRadix) (o : WOpts)
+    (ho : o.maxDigits = none) {bits : Nat} (hb : bits < f.infBits) (len : Nat) {text : List Nat}
+    (hw : WriteRadix.writeFloat true feats f fmt o bits len = .ok text) :
+    WellFormed r fmt.exponentRadix o.dp o.exp text := by
+  obtain ⟨h3, h36⟩ := genericRadices_bounds r hr
+  unfold WriteRadix.writeFloat at hw
+  rw [hfr] at hw
+  cases hg : generate true f r bits with
+  | ok g =>
+    rw [hg] at hw
+    simp only [Res.bind] at hw
+    cases hl : layoutText (WriteFloat.effFmt feats fmt) feats o r g with
+    | ok t =>
+      rw [hl] at hw
+      simp only at hw
+      split at hw
+      · simp at hw
+      · simp only [Res.ok.injEq] at hw
+        subst hw
+        obtain ⟨hd, hne⟩ := generate_digitBytes hf.fok (by omega) h36 (hf.radix_lt h36) (hf.predOne hr) hb hg
+        have := layoutText_wellFormed (WriteFloat.effFmt feats fmt) feats o ho (by omega : 0 < r)
+          (by rw [effFmt_exponentRadix]; exact her) g hd hne hl
+        rwa [effFmt_exponentRadix] at this
+    | fault => rw [hl] at hw; simp at hw
+    | panic => rw [hl] at hw; simp at hw
+  | fault => rw [hg] at hw; simp [Res.bind] at hw
+  | panic => rw [hg] at hw; simp [Res.bind] at hw
+
+/-- **the same for either version of the back-trace, under the exact excluded case**: every FRACTION byte the digit
+generation left in the scratch buffer is a digit of the radix (the integer bytes always are). For the original
+snapshot (`cf = false`) this hypothesis fails exactly on the recorded round-up finding (`snapshot_roundup_invalid_digit`). -/
+theorem radix_wellformed_of_valid_fraction (cf : Bool) {f : Fmt} (hf : StdFmt f) {r : Nat} (hr : r ∈ genericRadices)
+    (feats : Features) (fmt : Format) (hfr : fmt.mantissaRadix = r) (her : 2 ≤ fmt.exponentRadix) (o : WOpts)
+    (ho : o.maxDigits = none) {bits : Nat} (len : Nat) {g : Gen} (hg : generate cf f r bits = .ok g)
+    (hfrac : ∀ c ∈ g.fracs, DigitByte r c) {text : List Nat}
+    (hw : WriteRadix.writeFloat cf feats f fmt o bits len = .ok text) :
+    WellFormed r fmt.exponentRadix o.dp o.exp text := by
+  obtain ⟨h3, h36⟩ := genericRadices_bounds r hr
+  unfold WriteRadix.writeFloat at hw
+  rw [hfr, hg] at hw
+  simp only [Res.bind] at hw
+  cases hl : layoutText (WriteFloat.effFmt feats fmt) feats o r g with
+  | ok t =>
+    rw [hl] at hw
+    simp only at hw
+    split at hw
+    · simp at hw
+    · simp only [Res.ok.injEq] at hw
+      subst hw
+      obtain ⟨hints, hne⟩ := generate_ints hf.fok (by omega) h36 (hf.radix_lt h36) hg
+      have hd : ∀ c ∈ g.ints ++ g.fracs, DigitByte r c := by
+        intro c hc
+        rcases List.mem_append.mp hc with hc | hc
+        · exact hints c hc
+        · exact hfrac c hc
+      have := layoutText_wellFormed (WriteFloat.effFmt feats fmt) feats o ho (by omega : 0 < r)
+        (by rw [effFmt_exponentRadix]; exact her) g hd hne hl
+      rwa [effFmt_exponentRadix] at this
+  | fault => rw [hl] at hw; simp at hw
+  | panic => rw [hl] at hw; simp at hw
+
+/-- radix 3 plain format (`mantissa_radix = exponent_base = exponent_radix = 3`, default flags) -/
+def fmt3 : Format := ⟨0x303030000000000000000000000000c⟩
+/-- radix 36 with `required_exponent_notation` -/
+def fmt36req : Format := ⟨0x2424240000000000000000000000400c⟩
+def featsRadix : Features := { radix := true, powerOfTwo := true }
+def featsRadixFormat : Features := { radix := true, powerOfTwo := true, format := true }
+
+theorem not_digitByte3_51 : ¬ DigitByte 3 51 := by
+  rintro ⟨d, hd, h⟩
+  unfold digitChar at h
+  split at h <;> omega
+
+/-- decided witness, ORIGINAL SNAPSHOT: the float just below 7/9 (binary32 `0x3f471c71`) in radix 3 is written
+`"0.203"` — `'3'` is not a digit of the radix — and the text is not well-formed … -/
+theorem snapshot_roundup_invalid_digit :
+    WriteRadix.writeFloat false featsRadix f32 fmt3 {} 0x3f471c71 256 = .ok [48, 46, 50, 48, 51]
+    ∧ ¬ WellFormed 3 3 46 101 [48, 46, 50, 48, 51] := by
+  refine ⟨by decide +kernel, fun h => ?_⟩
+  rcases h.bytes 51 (by simp) with h | h | h | h | h | h
+  · exact not_digitByte3_51 h
+  · exact not_digitByte3_51 h
+  all_goals omega
+
+/-- … while the repaired code writes `"0.21"` for the same float (non-vacuity of `radix_wellformed`) -/
+theorem repaired_roundup_example :
+    WriteRadix.writeFloat true featsRadix f32 fmt3 {} 0x3f471c71 256 = .ok [48, 46, 50, 49] := by decide +kernel
+
+example : WellFormed 3 3 46 101 [48, 46, 50, 49] :=
+  radix_wellformed (Or.inr rfl) (by decide) featsRadix fmt3 (by decide) (by decide) {} rfl (by decide) 256
+    repaired_roundup_example
+
+/-- decided witness for the restriction `max_significant_digits = none` (finding class C14-generic-digit-options):
+binary32 1/9 in radix 3 with `max_significant_digits = 2` is written `"0.01\0"` — a NUL byte -/
+theorem max_digits_emits_nul :
+    WriteRadix.writeFloat true featsRadix f32 fmt3 { maxDigits := some 2, negBreak := some (-20) } 0x3de38e39 256
+      = .ok [48, 46, 48, 49, 0] := by decide +kernel
+
+/-- NEW finding, decided on the model (and replayed on the implementation, `radix+format`): with
+`required_exponent_notation` the zero (and the smallest subnormal, whose digits are all zero) makes
+`write_float_scientific` index `digits[0]` of an empty slice — PANIC with the documented buffer -/
+theorem finding_zero_required_exponent_panics :
+    WriteRadix.writeFloat true featsRadixFormat f64 fmt36req {} 0 256 = .panic
+    ∧ WriteRadix.writeFloat true featsRadixFormat f64 fmt36req {} 1 256 = .panic
+    ∧ WriteRadix.writeFloat true featsRadixFormat f32 fmt36req {} 0 256 = .panic := by
+  refine ⟨by decide +kernel, by decide +kernel, by decide +kernel⟩
+
+/-! ### 3b. termination / fuel adequacy -/
+
+/-- **the fraction loop terminates within the scratch buffer**: for every finite pattern and radix 2..36 the fraction
+part of `write_float` returns (no index past the 1100 bytes right of the decimal point): `delta` at least doubles per
+iteration and the loop exits once `delta ≥ 1 ≥ fraction`, so at most 1075 (f64) / 150 (f32) digits are written. -/
+theorem radix_fraction_terminates (cf : Bool) {f : Fmt} (hf : StdFmt f) {r : Nat} (hr : 2 ≤ r) (hr36 : r ≤ 36)
+    {bits : Nat} (hb : bits < f.infBits) : ∃ x, genFraction cf f r bits = .ok x :=
+  genFraction_total cf hf.fok hf.fuel.1 hr hr36 (hf.radix_lt hr36) hb
+
+/-- **the integer loops terminate within the scratch buffer**, for every starting value up to `+∞`: the exponent field
+of `integer` drops by at least one per iteration of either loop, at most `bias + 2` bytes are written. -/
+theorem radix_integer_terminates {f : Fmt} (hf : StdFmt f) {r : Nat} (hr : 2 ≤ r) (hr36 : r ≤ 36) {x : Nat}
+    (hx : x ≤ f.infBits) : ∃ ints, genInteger f r x = .ok ints :=
+  genInteger_total hf.fok hr (hf.radix_lt hr36) hf.fuel.2.1 hx
+
+/-- **digit generation never PANICs** (both loops, carry included) -/
+theorem radix_generate_total (cf : Bool) {f : Fmt} (hf : StdFmt f) {r : Nat} (hr : 2 ≤ r) (hr36 : r ≤ 36)
+    {bits : Nat} (hb : bits < f.infBits) : ∃ g, generate cf f r bits = .ok g :=
+  generate_total hf.fok hr (hf.radix_lt hr36) cf hf.fuel.1 hf.fuel.2.1 hr36 hb
+
+/-! ### 3c. integer exactness — the `IeeeExact` assumption discharged -/
+
+/-- the three float operations of the integer path as the full model computes them (exact result, then `roundNE`),
+read back as integers -/
+def modelOps (f : Fmt) : FOps :=
+  ⟨fun a b => Proof.RoundNE.ival f (fmod f (ofNat f a) (ofNat f b)) / unit f,
+   fun a b => Proof.RoundNE.ival f (fsub f (ofNat f a) (ofNat f b)) / unit f,
+   fun a b => Proof.RoundNE.ival f (fdiv f (ofNat f a) (ofNat f b)) / unit f⟩
+
+/-- **`IeeeExact` is a theorem about the modelled arithmetic**, no longer an assumption -/
+theorem ieeeExact_modelOps {f : Fmt} (h : FOK f) : IeeeExact (2 * 2 ^ (f.p - 1)) (modelOps f) := by
+  intro a b ha hb0 hb
+  have hu := unit_pos f
+  have val : ∀ {n : Nat}, n < 2 * 2 ^ (f.p - 1) → Proof.RoundNE.ival f (ofNat f n) / unit f = n := by
+    intro n hn; rw [(ofNat_ival h hn).1, Nat.mul_div_cancel _ hu]
+  refine ⟨?_, ?_, ?_, ?_⟩
+  · show Proof.RoundNE.ival f (fmod f (ofNat f a) (ofNat f b)) / unit f = a % b
+    rw [fmod_ofNat h ha hb hb0]
+    exact val (Nat.lt_trans (Nat.mod_lt _ hb0) hb)
+  · intro hle
+    show Proof.RoundNE.ival f (fsub f (ofNat f a) (ofNat f b)) / unit f = a - b
+    rw [fsub_ofNat h ha hle]
+    exact val (by omega)
+  · show Proof.RoundNE.ival f (fsub f (ofNat f a) (ofNat f 0)) / unit f = a
+    rw [fsub_ofNat h ha (Nat.zero_le _)]
+    exact val ha
+  · intro hdvd
+    show Proof.RoundNE.ival f (fdiv f (ofNat f a) (ofNat f b)) / unit f = a / b
+    rw [fdiv_ofNat h ha hb hb0 hdvd]
+    exact val (Nat.lt_of_le_of_lt (Nat.div_le_self _ _) ha)
+
+/-- **C07 integer clause on the full model** (either back-trace): for the float of an integer `0 < n < 2^p`
+(`2^53` / `2^24`) and every radix 2..36, digit generation of the whole writer yields exactly the canonical numeral
+`toDigits r n` as integer digits, no fraction digit and nothing else — the integer-path model's digits
+(`integerDigits`), with no arithmetic assumption. -/
+theorem radix_integer_exact_full (cf : Bool) {f : Fmt} (hf : StdFmt f) {r : Nat} (hr : 2 ≤ r) (hr36 : r ≤ 36)
+    {n : Nat} (h0 : 0 < n) (hn : n < 2 * 2 ^ (f.p - 1)) :
+    generate cf f r (ofNat f n) = .ok ⟨(toDigits r n).map digitChar, [], []⟩
+    ∧ integerDigits (modelOps f) r n = toDigits r n := by
+  refine ⟨generate_integral cf hf.fok hf.fuel.2.2 hr hr36 (hf.radix_lt hr36) h0 hn, ?_⟩
+  have h64 : 2 * 2 ^ (f.p - 1) ≤ 2 ^ 64 := by rcases hf with rfl | rfl <;> decide
+  exact (radix_integer_exact (modelOps f) r _ n (ieeeExact_modelOps hf.fok) hr (hf.radix_lt hr36) h0 hn h64).1
+
+/-- **the full model on an integral float equals the integer-path model, text level**: for the float of an integer
+`0 < n < 2^p`, default `max_significant_digits`, any other options / format flags / feature set, the whole writer
+returns exactly the bytes `render (layoutInt …)` of the integer-path model (run on the modelled arithmetic), or PANICs
+iff the caller's slice is shorter than the highest index `hi` it touches. With `radix_integer_exact*` this carries the
+positional / scientific exactness statements over to the full model. -/
+theorem radix_integer_text_full (cf : Bool) {f : Fmt} (hf : StdFmt f) (feats : Features) (fmt : Format)
+    (hr : 2 ≤ fmt.mantissaRadix) (hr36 : fmt.mantissaRadix ≤ 36) (o : WOpts) (ho : o.maxDigits = none)
+    {n : Nat} (h0 : 0 < n) (hn : n < 2 * 2 ^ (f.p - 1)) (len : Nat) :
+    ∃ hi, WriteRadix.writeFloat cf feats f fmt o (ofNat f n) len =
+      if hi > len then .panic
+      else .ok (WriteBinary.render (WriteFloat.effFmt feats fmt) feats o
+        (layoutInt (WriteFloat.effFmt feats fmt) o (modelOps f) n)) := by
+  have hmr : (WriteFloat.effFmt feats fmt).mantissaRadix = fmt.mantissaRadix := effFmt_byteAt feats fmt (by decide)
+  obtain ⟨hgen, hdig⟩ := radix_integer_exact_full cf hf hr hr36 h0 hn
+  obtain ⟨d0, t, hdt, hd0⟩ := LexVerif.Proof.WriteBinaryDigits.toDigits_head_pos fmt.mantissaRadix n hr h0
+  have h64 : 2 * 2 ^ (f.p - 1) ≤ 2 ^ 64 := by rcases hf with rfl | rfl <;> decide
+  have hlen : (toDigits fmt.mantissaRadix n).length ≤ 64 := by
+    apply toDigits_length_le _ _ 64 hr (by decide)
+    calc n < 2 ^ 64 := by omega
+      _ ≤ fmt.mantissaRadix ^ 64 := Nat.pow_le_pow_left hr 64
+  rw [hdt] at hlen hdig
+  obtain ⟨hi, hl⟩ := LexVerif.Proof.WriteRadixIntText.layoutText_int (WriteFloat.effFmt feats fmt) feats o ho
+    (modelOps f) n d0 t (by rw [hmr]; exact hdig) hd0 (by simp only [List.length_cons] at hlen; omega)
+  refine ⟨hi, ?_⟩
+  unfold WriteRadix.writeFloat
+  rw [hgen, hdt]
+  simp only [Res.bind]
+  rw [hmr] at hl
+  have hl' : layoutText (WriteFloat.effFmt feats fmt) feats o fmt.mantissaRadix
+      ⟨List.map digitChar (d0 :: t), [], []⟩ = _ := hl
+  rw [hl']
+
+/-- non-vacuity: `2^53 - 1` and `2^24 - 1` are such integers -/
+example : generate true f64 36 (ofNat f64 (2 ^ 53 - 1)) = .ok ⟨(toDigits 36 (2 ^ 53 - 1)).map digitChar, [], []⟩ :=
+  (radix_integer_exact_full true (Or.inl rfl) (by decide) (by decide) (by decide) (by decide)).1
+example : generate false f32 3 (ofNat f32 (2 ^ 24 - 1)) = .ok ⟨(toDigits 3 (2 ^ 24 - 1)).map digitChar, [], []⟩ :=
+  (radix_integer_exact_full false (Or.inr rfl) (by decide) (by decide) (by decide) (by decide)).1
+
+/-! ### 3d. toward the ulp clause: what is exact -/
+
+/-- the split `float = integer + fraction` is exact (`floor` and the subtraction do not round) -/
+theorem radix_split_exact {f : Fmt} (hf : StdFmt f) {bits : Nat} (hb : bits < f.infBits) :
+    Proof.RoundNE.ival f (ffloor f bits) + Proof.RoundNE.ival f (fsub f bits (ffloor f bits)) = Proof.RoundNE.ival f bits := by
+  rw [(ffloor_exact hf.fok.wf hb).1, fsub_ffloor_exact hf.fok.wf hb]
+  have := Nat.div_add_mod (Proof.RoundNE.ival f bits) (unit f)
+  rw [Nat.mul_comm] at this
+  exact this
+
+/-- **one iteration of the fraction loop is exact up to ONE rounding**: with `fraction ≤ 1`,
+`P = round(fraction · base)` is the only inexact operation; `digit = ⌊P⌋ ≤ radix` and the next `fraction = P - digit`
+exactly, so `digit + fraction' = P` and `fraction' < 1` (values in units of `2^-L`). What is missing for the ulp bound:
+summing the per-step errors `|P - fraction·base| ≤ ulp(P)/2` over the (≤ 1075) steps against `delta · base^k`, and the
+effect of the final round-up. -/
+theorem radix_fraction_step_partial {f : Fmt} (hf : StdFmt f) {r : Nat} (hr36 : r ≤ 36) {x : Nat} (hx : x ≤ one f) :
+    let P := fmul f x (ofNat f r)
+    let digit := asU32 f P
+    digit * unit f + Proof.RoundNE.ival f (fsub f P (ofNat f digit)) = Proof.RoundNE.ival f P
+      ∧ digit ≤ r ∧ fsub f P (ofNat f digit) < one f := by
+  intro P digit
+  obtain ⟨hd, hle, hmod, hlt⟩ := frac_step hf.fok hr36 (hf.radix_lt hr36) hx
+  refine ⟨?_, hle, hlt⟩
+  rw [hmod]
+  show asU32 f (fmul f x (ofNat f r)) * unit f + _ = _
+  rw [hd]
+  have := Nat.div_add_mod (Proof.RoundNE.ival f (fmul f x (ofNat f r))) (unit f)
+  rw [Nat.mul_comm] at this
+  exact this
+
+/-- on the repaired code the digit is even `< radix` (`fraction.as_u32()` never yields the radix itself) -/
+theorem radix_fraction_digit_lt {f : Fmt} (hf : StdFmt f) {r : Nat} (hr : r ∈ genericRadices) {x : Nat}
+    (hx : x < one f) : asU32 f (fmul f x (ofNat f r)) < r :=
+  fracDigit_lt hf.fok (genericRadices_bounds r hr).2 (hf.radix_lt (genericRadices_bounds r hr).2) (hf.predOne hr) hx
+
+/-- digit VALUE of a byte of the scratch buffer (`0-9`, `A-Z`) -/
+def byteDigit (c : Nat) : Nat := if c < 58 then c - 48 else c - 55
+
+/-- **C07 ulp clause, full statement (NOT proved; measured by the exact judge on every output of the stream).**
+For every finite binary32/binary64 pattern and every generic radix, the digits `ints . fracs` the writer generates
+denote a number whose nearest float is within 2048 (f64) / 256 (f32) patterns of the input. -/
+def C07_radix_error_bound : Prop :=
+  ∀ (f : Fmt), StdFmt f → ∀ r ∈ genericRadices, ∀ bits < f.infBits, ∀ g, generate true f r bits = .ok g →
+    ulpDist (roundNE f (ofDigits r ((g.ints ++ g.fracs).map byteDigit)) (r ^ g.fracs.length)) bits
+      ≤ (if f = f64 then 2048 else 256)
+
+end RadixFull
 
 end LexVerif.Props.C07
